@@ -35,7 +35,8 @@ TECHNIQUE = (
 LEVEL_TEXT = (
     "Exploration: 16 (quick) / 304 (thorough) configurations = seed x randomness parameters (probabilities 0, 0.05, 0.5, 1; "
     "mandatory/optional lists empty, default, full, random subsets) each run in 4 (quick) / 6 (thorough) process environments "
-    "plus one walk process, over histories of 30..300 requests built from the observed model (session changes, resets, "
+    "plus one walk process, and in both tiers two boundary-seed configurations (seed 0 as int and as the string '0') that are "
+    "always taken through the CLI/config constructor path in three further processes, over histories of 30..300 requests built from the observed model (session changes, resets, "
     "security access with correct/wrong keys, reads/writes/routines, every-service sweeps, reference-generated valid "
     "requests, random bytes).  Held means: no difference was observed on these configurations, histories and environments."
 )
@@ -47,7 +48,7 @@ RULE = (
     "case = (seed, randomness parameters, behaviour flags, request history, process environment); configurations are "
     "8 fixed corner configurations (all defaults twice with different seeds, all probabilities 0, everything full with "
     "probability 1, all four lists empty, all 0.5, all sessions mandatory with p_session 0, DiagnosticSessionControl not "
-    "mandatory) plus seeded random draws (each probability from {default,0,0.05,0.5,1}, each list from "
+    "mandatory) plus two fixed boundary-seed configurations (seed 0 / '0', CLI constructor path forced) plus seeded random draws (each probability from {default,0,0.05,0.5,1}, each list from "
     "{default,empty,full,random subset}); seeds are ints (0,1,-1,2^31-1,2^63-1,2^64+3,random 63 bit) and strings; histories "
     "are generated from the model the walk process observed; non-trivial = the transcript shows at least 3 distinct "
     "replies; distinct = distinct (configuration, history, environment)"
@@ -62,7 +63,8 @@ ASSUMPTIONS = [
     "gaps between requests stay far below the 10 s inactivity reset (children with a gap > 4 s are discarded as harness noise)",
     "PYTHONHASHSEED=random is exercised literally and additionally through parent-chosen numeric values (reproducible)",
     "the construction-path dimension compares RandomUDSServer(seed, RandomnessParameters(**args), Behavior(**flags)) with "
-    "RngVirtualECU(RngVirtualECUConfig(target, seed=str(seed), **args as CLI strings))._server(); non-numeric string seeds only take the direct path",
+    "RngVirtualECU(RngVirtualECUConfig(target, seed=str(seed), **args as CLI strings))._server(); non-numeric string seeds only take the direct path; "
+    "for the boundary seed 0 the config object is additionally built with the int 0 (constructor path 'cli-int')",
     "'can return to the default session' accepts any DiagnosticSessionControl path of the model or an offered ECUReset; "
     "the inactivity timeout is not counted as a way back",
     "reachability walks are judged only under default behaviour flags (the statement quantifies over randomness parameters)",
@@ -165,7 +167,7 @@ def child_main(spec_file: str, out_file: str) -> int:
         if grand:
             for _ in range(int(grand["calls"]) % 7 + 1):
                 _random.random()
-        if env.get("ctor") == "cli":
+        if env.get("ctor") in ("cli", "cli-int"):
             from gallia.commands.script.vecu import RngVirtualECU, RngVirtualECUConfig
 
             cli: dict[str, Any] = {}
@@ -178,7 +180,8 @@ def child_main(spec_file: str, out_file: str) -> int:
                     cli[k] = str(v)
             for k, v in behavior.items():
                 cli[k] = "true" if v else "false"
-            cfg = RngVirtualECUConfig(target=target, seed=str(seed), **cli)
+            # "cli": the seed as the command line delivers it (a string); "cli-int": as a config file / API caller gives it
+            cfg = RngVirtualECUConfig(target=target, seed=(int(seed) if env.get("ctor") == "cli-int" else str(seed)), **cli)
             return RngVirtualECU(cfg)._server()
         return S.RandomUDSServer(seed, S.RandomUDSServer.RandomnessParameters(**args), S.RandomUDSServer.Behavior(**behavior))
 
@@ -365,12 +368,20 @@ def child_main(spec_file: str, out_file: str) -> int:
 # =================================================================================================
 # parent: workload
 # =================================================================================================
+# Boundary-seed configurations, part of every tier: seed 0 (falsy; lower end of the documented range) as an int and as the
+# string "0" the command line delivers, always taken through the CLI/config constructor path in several processes.
+SEED0_CONFIGS = [1000, 1001]
+
+
 def shards(tier: str, seed: int) -> list[dict[str, Any]]:
     if tier == "quick":
-        n, parts, jobs = 16, 4, 4
+        n, parts, jobs = 16, 4, 5
     else:
         n, parts, jobs = 304, 16, 2
-    return [{"configs": list(range(p, n, parts)), "jobs": jobs} for p in range(parts)]
+    out = [{"configs": list(range(p, n, parts)), "jobs": jobs} for p in range(parts)]
+    for k, i in enumerate(SEED0_CONFIGS):  # one per shard, from the end (shard 0 also runs the seed-pair sanity child)
+        out[-1 - (k % parts)]["configs"].append(i)
+    return out
 
 
 def required_reach(tier: str) -> dict[str, int]:
@@ -392,6 +403,9 @@ def required_reach(tier: str) -> dict[str, int]:
         "walk.sessions-reached": 20 if q else 500,
         "walk.returned-to-default": 20 if q else 500,
         "mandatory.checked": 10 if q else 250,
+        # seed 0 / "0" through RngVirtualECU(RngVirtualECUConfig(...))._server(): cli-path processes compared with the baseline
+        "seed0.cli-path-processes-compared": 4,
+        "seed0.configs-with-two-cli-processes": 2,
     }
 
 
@@ -406,6 +420,14 @@ def gen_config(vseed: int, i: int) -> dict[str, Any]:
     behavior: dict[str, bool] = {}
     seed: Any = base
     label = "random"
+    if i in SEED0_CONFIGS:
+        if i == SEED0_CONFIGS[0]:
+            label, seed = "seed-0/int/defaults", 0
+        else:
+            label, seed = "seed-0/string/p_session-0.5", "0"
+            args = dict(p_session=0.5, p_identifier=0.5)
+        return {"index": i, "label": label, "seed": seed, "args": args, "behavior": behavior, "history_len": 60,
+                "history_seed": rng.getrandbits(48), "seed0": True}
     if i == 0:
         label = "defaults/seed-a"
     elif i == 1:
@@ -475,7 +497,7 @@ def gen_config(vseed: int, i: int) -> dict[str, Any]:
 
 
 def make_envs(tier: str, cfg: dict[str, Any], rng: random.Random) -> list[dict[str, Any]]:
-    numeric = isinstance(cfg["seed"], int)
+    numeric = isinstance(cfg["seed"], int) or bool(cfg.get("seed0"))
     cli = "cli" if numeric else "direct"
     g1 = {"seed": rng.getrandbits(32), "calls": rng.randint(1, 50)}
     g2 = {"seed": rng.getrandbits(32), "calls": rng.randint(1, 50)}
@@ -487,6 +509,9 @@ def make_envs(tier: str, cfg: dict[str, Any], rng: random.Random) -> list[dict[s
         {"hashseed": "4242", "imp": "server", "ctor": cli, "grand": g1, "clock": 0},
         {"hashseed": "random", "imp": "tree", "ctor": cli, "grand": g2, "clock": 1e9},
     ]
+    if cfg.get("seed0"):
+        # the boundary seed once more as an int through the config object, in a process that differs in nothing else
+        envs.append(dict(envs[0], ctor="cli-int"))
     if tier != "quick":
         envs.append({"hashseed": str(rng.randrange(2, 2**32)), "imp": "server", "ctor": "direct", "grand": dict(g2, calls=g2["calls"] + 13), "clock": -1.7e9})
         envs.append({"hashseed": "random", "imp": "tree", "ctor": "direct", "grand": None, "clock": 3e9})
@@ -818,6 +843,7 @@ def run_config(rn: Runner, tier: str, vseed: int, cfg: dict[str, Any], deadline_
     seeds_seen = [tuple(r.get("seeds", [])) for r in results if r]
     if len(set(seeds_seen)) > 1:
         bump("security.seeds-fresh-across-processes")
+    seed0_cli = 0
     for k, rk in enumerate(results):
         if rk is None:
             continue
@@ -834,6 +860,11 @@ def run_config(rn: Runner, tier: str, vseed: int, cfg: dict[str, Any], deadline_
             bump("env.import-order.varied")
         if "constructor-path" in dims:
             bump("env.constructor-path.varied")
+            if cfg.get("seed0") and str(env["ctor"]).startswith("cli") and "construct_error" not in rk and rk.get("seed_effective") is not None:
+                bump("seed0.cli-path-processes-compared")
+                seed0_cli += 1
+                if seed0_cli == 2:
+                    bump("seed0.configs-with-two-cli-processes")
         if "global-random" in dims:
             bump("env.global-random.varied")
         if "wall-clock" in dims and abs((rk["server_clock_minus_real"] - r0["server_clock_minus_real"]) - (env["clock"] - envs[0]["clock"])) < 5:
